@@ -52,10 +52,12 @@ def items(tier):
     b = BOUNDS[tier]
     out = []
 
-    def add(lay, steps=2, bnd="scalar", maxvol="sym", move="scalar", tolx="0", pos=False):
-        ident = "oc-%s-b%d-%s-vol%s-mv%s-tolx%s%s" % (lay, steps, "bvec" if bnd == "vector" else "bsc", maxvol,
-                                                       "v" if move == "vector" else "s", tolx, "-posgrad" if pos else "")
-        out.append(dict(kind="oc", id=ident, layout=lay, steps=steps, bounds=bnd, maxvol=maxvol, move=move, tolx=tolx, pos=pos))
+    def add(lay, steps=2, bnd="scalar", maxvol="sym", move="scalar", tolx="0", pos=False, alias=False):
+        ident = "oc-%s-b%d-%s-vol%s-mv%s-tolx%s%s%s" % (lay, steps, "bvec" if bnd == "vector" else "bsc", maxvol,
+                                                         "v" if move == "vector" else "s", tolx, "-posgrad" if pos else "",
+                                                         "-sharedinit" if alias else "")
+        out.append(dict(kind="oc", id=ident, layout=lay, steps=steps, bounds=bnd, maxvol=maxvol, move=move, tolx=tolx, pos=pos,
+                        alias=alias))
     for lay in b["layouts"]:
         add(lay, bnd="scalar", maxvol="sym")
         add(lay, bnd="vector", maxvol="sym")
@@ -64,6 +66,7 @@ def items(tier):
     add("a1-a1", tolx="sym", bnd="vector")
     add("a2-a1", move="vector", bnd="vector")
     add("a2-a1", pos=True)
+    add("a2-a2", alias=True)       # both variable signals initialised from one user array
     if tier == "thorough":
         add("a3", pos=True, bnd="vector")
         add("a2", steps=3)
@@ -196,7 +199,10 @@ def sc_oc(V, P, cfg):
         move_l, move_in = [mv] * n, mv
     x0, coef = [], []
     for k, sz in enumerate(sizes):
-        x0.append(V.real("x%d" % k, default=0.5) if sz == 0 else V.reals("x%d" % k, sz, default=0.5))
+        if cfg.get("alias") and k > 0:
+            x0.append(x0[0])          # every variable signal starts from the same user array
+        else:
+            x0.append(V.real("x%d" % k, default=0.5) if sz == 0 else V.reals("x%d" % k, sz, default=0.5))
         if cfg["pos"] and k == 0:
             # first coefficient negative: positive gradient entry (clipping branch + warning)
             cneg = V.real("cneg", positive=True, default=1.0)
@@ -222,7 +228,11 @@ def sc_oc(V, P, cfg):
     tolx = V.real("tolx", positive=True, default=0.001) if cfg["tolx"] == "sym" else 0.0
     steps = cfg["steps"]
     l1init, l2init, l1l2tol = 0, 2 ** steps, 1
-    sx = [pym.Signal("x%d" % k, (v.copy() if isinstance(v, np.ndarray) else v)) for k, v in enumerate(x0)]
+    if cfg.get("alias"):
+        shared = x0[0].copy()
+        sx = [pym.Signal("x%d" % k, shared) for k in range(len(x0))]      # Signal('a', x_init), Signal('b', x_init)
+    else:
+        sx = [pym.Signal("x%d" % k, (v.copy() if isinstance(v, np.ndarray) else v)) for k, v in enumerate(x0)]
     sf = pym.Signal("f")
     net = pym.Network(Mod(sx, sf, coef=coef))
     saved = {}
